@@ -225,6 +225,16 @@ M('F8R', 'src/xdoctest/parser.py',
   "final_lines = exec_source_lines", ['C02', 'C18'], 'F8 repair reverted')
 M('F11R', 'src/xdoctest/checker.py', "                            inner = inner.strip()", "                            pass",
   ['C05'], 'F11 repair reverted')
+M('F17R', 'src/xdoctest/doctest_example.py', """                part_directive = None
+                try:
+                    try:
+                        # Directives are extracted lazily, a malformed one
+                        # may only be noticed here.
+                        part_directive = part.directives
+""", """                part_directive = part.directives
+                try:
+                    try:
+""", ['C09'], 'F17 repair reverted: lazily extracted malformed directive escapes run()')
 M('R3', 'src/xdoctest/runner.py', """            summaries.append(summary)
             if example.warn_list:""", """            if summary['skipped'] and summaries:
                 continue
